@@ -268,3 +268,25 @@ package util
 //@   ensures[C10.unit]  n <= 1000000000 && real(oldAvg) == 1.0 && real(newValue) == 0.0 ==> result < 1.0 && result >= 0.0
 //@   ensures[C08.fixpoint C10] abs(real(oldAvg)) <= 1.0e300 && oldAvg == newValue ==> result == newValue
 //@   modifies nothing
+
+// ---- curve interpolation (C06, C07) ---------------------------------------------------------------------
+//@ pure stepsOK(m map[int]float64) bool = len(m) >= 1 && (forall k :: k in m ==> fin(m[k]) && 0.0 <= m[k] && m[k] <= 255.0 && -1000000 <= k && k <= 1000000)
+
+//@ func Ratio
+//@   props C06
+//@   requires fin(target) && fin(rangeMin) && fin(rangeMax) && rangeMin < rangeMax && rangeMin <= target && target <= rangeMax && abs(real(rangeMin)) <= 1.0e9 && abs(real(rangeMax)) <= 1.0e9
+//@   ensures[C06.unit] 0.0 <= result && result <= 1.0
+//@   modifies nothing
+
+//@ func CalculateInterpolatedCurveValue
+//@   props C06
+//@   requires stepsOK(steps) && fin(input)
+//@   ensures[C06.range] fin(result) && 0.0 <= result && result <= 255.0
+//@   modifies nothing
+//@   loop 1 "for x := range steps"
+//@     invariant len(xValues) == count#1 && arrayOf(xValues) >= old(W) && cap(xValues) >= len(steps) && count#1 <= len(steps)
+//@     invariant forall j :: 0 <= j && j < len(xValues) ==> xValues[j] in visited#1
+//@     invariant forall k :: k in visited#1 ==> k in steps && exists j :: 0 <= j && j < len(xValues) && xValues[j] == k
+//@     invariant forall a, b :: 0 <= a && a < b && b < len(xValues) ==> xValues[a] != xValues[b]
+//@   loop 2 "for i := 0; i < len(xValues)-1; i++"
+//@     invariant 0 <= i && i <= len(xValues) - 1
